@@ -6,6 +6,7 @@ MODULE = "cspuz.puzzle.yinyang"
 FUNC = "solve_yinyang"
 VALUES = [0, 1, 2]
 TIER1 = ("Yinyang", "solve_yinyang_model")
+TIER1_PRIM = ("YinyangPrim", "solve_yinyang_model_prim")
 
 
 def call(mod, pb):
